@@ -152,6 +152,10 @@ def decode_check(bits, value, dt, mapcls, use_map, out, hist=None):
 def probe_inputs():
     """Fixed probe set: (bits, value, dt, mapcls, use_map)."""
     probes = []
+    # first of all (before any event frame): instance commands whose opcodes belong to the parts 301/303/304
+    for inst in (0x00, 0x1F, 0xC1, 0xC3, 0xC4, 0x81, 0xFF):
+        for op in (0x00, 0x05, 0x0F, 0x10, 0x20, 0x2F, 0x30, 0x3F, 0x40):
+            probes.append((24, 0x010000 | (inst << 8) | op, 0, None, False))
     x = 0x2545F491
     for k in range(1500):
         x = (x * 1103515245 + 12345) & 0x7FFFFFFF
@@ -256,6 +260,10 @@ IMPORT_HISTORIES = {
     "sequences-only": (False, ["dali.sequences", "dali.device.helpers"]),
     "leaf-modules-only": (True, ["dali.device.pushbutton", "dali.gear.led"]),
     "drivers-only": (False, ["dali.driver.hid", "dali.device.helpers", "dali.gear"]),
+    # the packages by their own names only (no submodule named by the program)
+    "packages-only": (False, ["dali.device", "dali.gear"]),
+    "device-package-only": (False, ["dali.device"]),
+    "gear-package-only-then-decodes-then-device": (True, ["dali.gear", "dali.device"]),
     # everything imported, then the application builds its commands/events/maps BEFORE the first frame is decoded
     "constructions-before-first-decode": ("construct", ["dali.gear", "dali.device"]),
     # the program registers decoders of its own for proprietary frame lengths (direct subclasses of Command whose
